@@ -219,6 +219,8 @@ def verdict_pairs(R, C, ir, kind, rng, tier, repro, exhaustive=False):
                             continue
                         if val is refval.NIL and (pos == 'attribute' or is_xmldata(ir, at, path)):
                             continue          # an attribute / text content cannot be nil
+                        if val is refval.NIL and has_required_attribute(ir, lt):
+                            continue          # whether a nilled element must still carry its required attributes is XSD's rule, not a declared facet
                         if val is None and is_xmldata(ir, at, path):
                             continue
                         mutated = list(args)
@@ -263,6 +265,13 @@ def verdict_pairs(R, C, ir, kind, rng, tier, repro, exhaustive=False):
                         else:
                             R.nontrivial('pair', kind, pos.split(':')[0], gen.shape(lt), label.split('_')[0], outs[0][0])
                             R.cell('%s|pairs|%s' % (kind, outs[0][0]))
+
+
+def has_required_attribute(ir, t):
+    t = t.get('seq') or t.get('array') or t
+    if 'ref' not in t:
+        return False
+    return any('attr' in ft and ft['attr'].get('min_occurs', 0) >= 1 for _, ft in gen.all_fields(ir, t['ref']))
 
 
 def is_xmldata(ir, t, path):
